@@ -103,6 +103,7 @@ pub struct HandlerRunner {
     nodes: Vec<Node>,
     attacker_key: Option<CombinedKey>,
     attacker_enr: Option<Enr>,
+    ed_enr: Option<Enr>,
     wire: Vec<Datagram>,
     names: Names,
     keys: Vec<([u8; 16], String)>, // (key bytes, key term)
@@ -139,6 +140,7 @@ impl Default for HandlerRunner {
             nodes: Vec::new(),
             attacker_key: None,
             attacker_enr: None,
+            ed_enr: None,
             wire: Vec::new(),
             names: Names::default(),
             keys: Vec::new(),
@@ -165,6 +167,12 @@ impl Default for HandlerRunner {
     }
 }
 
+/// An identity with an Ed25519 key (it has a record but can never complete a discv5.1 handshake).
+fn ed_key() -> CombinedKey {
+    let mut b = Rng::new(0xED25_5190).bytes(32);
+    CombinedKey::ed25519_from_bytes(&mut b).expect("ed25519 key")
+}
+
 /// The static key of party `idx` (deterministic; `CombinedKey` is not `Clone`).
 fn key_of_idx(idx: u64) -> CombinedKey {
     key_from(&mut Rng::new(0xABCD_0000 + idx))
@@ -188,7 +196,28 @@ fn independent_aad(bytes: &[u8], local_id: &NodeId) -> Option<Vec<u8>> {
 }
 
 fn node_addr(idx: u64) -> SocketAddr {
+    if (21..=29).contains(&idx) {
+        // another port on the host of node idx-20
+        return SocketAddr::new(Ipv4Addr::new(10, 0, 0, (idx - 20) as u8).into(), 19000 + idx as u16);
+    }
     SocketAddr::new(Ipv4Addr::new(10, 0, 0, idx as u8).into(), 9000 + idx as u16)
+}
+
+const ED_IDENTITY: u64 = 8;
+
+/// The id-signature check done independently of the crate: ECDSA/secp256k1 over
+/// sha256("discovery v5 identity proof" ‖ challenge-data ‖ ephemeral-pubkey ‖ destination-id).
+/// Other key types cannot prove an identity in discv5.1.
+fn independent_verify(signer: &Enr, eph: &[u8], cd: &[u8], dst: &NodeId, sig: &[u8]) -> bool {
+    use discv5::enr::k256::ecdsa::signature::DigestVerifier;
+    use discv5::enr::k256::sha2::{Digest, Sha256};
+    let discv5::enr::CombinedPublicKey::Secp256k1(vk) = signer.public_key() else { return false };
+    let Ok(sig) = discv5::enr::k256::ecdsa::Signature::try_from(sig) else { return false };
+    let mut m = b"discovery v5 identity proof".to_vec();
+    m.extend_from_slice(cd);
+    m.extend_from_slice(eph);
+    m.extend_from_slice(&dst.raw());
+    vk.verify_digest(Sha256::new().chain_update(m), &sig).is_ok()
 }
 
 fn body_of(code: u64) -> RequestBody {
@@ -361,6 +390,9 @@ impl HandlerRunner {
     }
 
     fn key_for_idx(&self, idx: u64) -> Option<(CombinedKey, Enr)> {
+        if idx == ED_IDENTITY {
+            return Some((ed_key(), self.ed_enr.clone()?));
+        }
         if idx == ATTACKER {
             self.attacker_key.as_ref()?;
             return Some((key_of_idx(ATTACKER), self.attacker_enr.clone()?));
@@ -407,7 +439,7 @@ impl HandlerRunner {
                 let mut signed_cd: Option<(Vec<u8>, u64)> = None;
                 'outer: for (cdb, cdn) in cds.iter() {
                     for (sidx, senr) in signers.iter() {
-                        if hf::verify_id_signature(senr, ephem_pubkey, cdb, &local_id, id_nonce_sig) {
+                        if independent_verify(senr, ephem_pubkey, cdb, &local_id, id_nonce_sig) {
                             sig_term = format!("S:{}:{}:{}:{}", sidx, cdn, eph, local_idx);
                             signed_cd = Some((cdb.clone(), *cdn));
                             break 'outer;
@@ -875,6 +907,9 @@ impl Runner for HandlerRunner {
                 self.ids.insert(aenr.node_id(), ATTACKER);
                 self.attacker_key = Some(akey);
                 self.attacker_enr = Some(aenr);
+                let eenr = make_enr(&ed_key(), 1, Some((Ipv4Addr::new(10, 0, 0, ED_IDENTITY as u8), 9000 + ED_IDENTITY as u16)), None, 0);
+                self.ids.insert(eenr.node_id(), ED_IDENTITY);
+                self.ed_enr = Some(eenr);
                 self.rt = Some(rt);
                 self.settle();
                 out.push(format!("!OP hmulti {}", ops.join(" ;; ")));
@@ -1263,8 +1298,15 @@ impl HandlerRunner {
             // hcraft handshake CLAIMED_SRC SIGNER DST CHAL_WIRE_K REC BODY
             //   REC: none | own (attacker's record) | of:IDX (genuine record of node IDX) | stale:IDX
             "handshake" => {
+                let raw_sig: Option<Vec<u8>> = match args.get(1).copied() {
+                    Some("empty") => Some(Vec::new()),
+                    Some("garbage") => Some(r.bytes(64)),
+                    Some("short") => Some(r.bytes(10)),
+                    _ => None,
+                };
+                let signer_idx = if raw_sig.is_some() { ATTACKER } else { get(1) };
                 let (Some((_, senr)), Some((skey, _)), Some((_, denr))) =
-                    (self.key_for_idx(get(0)), self.key_for_idx(get(1)), self.key_for_idx(get(2))) else { return false };
+                    (self.key_for_idx(get(0)), self.key_for_idx(signer_idx), self.key_for_idx(get(2))) else { return false };
                 // `w`: the latest WHOAREYOU emitted by DST
                 let k = if args.get(3) == Some(&"w") {
                     self.wire.iter().rposition(|d| d.from_idx == get(2) && packet_decode(&d.dst_id, ProtocolIdentity::default(), &d.bytes)
@@ -1279,6 +1321,7 @@ impl HandlerRunner {
                 let rec: Option<Enr> = match args.get(4).copied().unwrap_or("none") {
                     "none" => None,
                     "own" => self.attacker_enr.clone(),
+                    "ed" => self.ed_enr.clone(),
                     s if s.starts_with("of:") => self.key_for_idx(s[3..].parse().unwrap_or(0)).map(|x| x.1),
                     s if s.starts_with("stale:") => self.key_for_idx(s[6..].parse().unwrap_or(0)).map(|(k, e)| {
                         make_enr(&k, 0, e.udp4_socket().map(|s| (*s.ip(), s.port())), None, 0)
@@ -1462,7 +1505,11 @@ pub fn gen_case(rng: &mut Rng, tier: &str, profile: &str, stats: &mut Stats) -> 
                 // duplicate / reordered delivery of an earlier datagram, sometimes from a foreign address
                 if emitted > 0 {
                     let k = rng.below(emitted);
-                    if rng.chance(1, 4) { ops.push(format!("hdel {} {}", k, rng.range(1, 9))); } else { ops.push(format!("hdel {}", k)); }
+                    match rng.below(6) {
+                        0 => ops.push(format!("hdel {} {}", k, rng.range(1, 9))),
+                        1 => ops.push(format!("hdel {} {}", k, 20 + rng.range(1, n))), // another port of a node's host
+                        _ => ops.push(format!("hdel {}", k)),
+                    }
                     emitted += 1;
                 }
             }
@@ -1502,8 +1549,17 @@ pub fn gen_case(rng: &mut Rng, tier: &str, profile: &str, stats: &mut Stats) -> 
                         ops.push("hdel last 9".into());
                         ops.push(format!("hwru {} next {}", y, match rng.below(3) { 0 => "none", 1 => "stale", _ => "known" }));
                         let rec = match rng.below(4) { 0 => "none".to_string(), 1 => "own".to_string(), 2 => format!("of:{}", x), _ => format!("stale:{}", x) };
-                        let signer = if rng.chance(1, 6) { x } else { 9 };
-                        ops.push(format!("hcraft handshake {} {} {} w {} 1", x, signer, y, rec));
+                        let signer = match rng.below(12) { 0 | 1 => x.to_string(), 2 => "empty".into(), 3 => "garbage".into(), 4 => "short".into(), _ => "9".to_string() };
+                        if rng.chance(1, 8) {
+                            // claim the identity that only has an Ed25519 key, presenting its public record
+                            ops.pop(); ops.pop(); ops.pop();
+                            ops.push(format!("hcraft random {} {}", ED_IDENTITY, y));
+                            ops.push("hdel last 9".into());
+                            ops.push(format!("hwru {} next none", y));
+                            ops.push(format!("hcraft handshake {} {} {} w ed 1", ED_IDENTITY, signer, y));
+                        } else {
+                            ops.push(format!("hcraft handshake {} {} {} w {} 1", x, signer, y, rec));
+                        }
                         ops.push("hdel last 9".into());
                         emitted += 4;
                     }
@@ -1512,7 +1568,7 @@ pub fn gen_case(rng: &mut Rng, tier: &str, profile: &str, stats: &mut Stats) -> 
                         // right or a foreign address; sometimes twice
                         let echo = if rng.chance(1, 2) { "h" } else { "r" };
                         ops.push(format!("hcraft whoareyou {} {} {}", y, echo, rng.below(3)));
-                        match rng.below(4) { 0 => ops.push("hdel last 9".into()), 1 => ops.push(format!("hdel last {}", x)), _ => ops.push("hdel last".into()) }
+                        match rng.below(5) { 0 => ops.push("hdel last 9".into()), 1 => ops.push(format!("hdel last {}", x)), 2 => ops.push(format!("hdel last {}", 20 + x)), _ => ops.push("hdel last".into()) }
                         if rng.chance(1, 3) { ops.push(format!("hcraft whoareyou {} {} 0", y, echo)); ops.push("hdel last".into()); }
                         emitted += 2;
                     }
